@@ -6,7 +6,9 @@ cd "$(dirname "$0")"
 export CARGO_NET_OFFLINE=true
 mkdir -p .build evidence
 ./coq/gen_project.sh
-timeout 7200 make -C coq -j16
+# -k: a proof file that is being worked on must not prevent the other properties from building; every check
+# builds (and so verifies) its own Properties/<ID>.vo again
+timeout 7200 make -C coq -j16 -k || echo "setup: some Coq files did not compile (each check reports its own)"
 for f in coq/theories/Extract/Extract*.v; do
   id=$(basename "$f" .v); id=${id#Extract}
   ./ocaml/build.sh "$id" &
